@@ -169,10 +169,45 @@ def native_replay(prop, job, workdir, requests, tag, race=False, timeout=600):
         out = (e.stdout or b"").decode() if isinstance(e.stdout, bytes) else (e.stdout or "")
         out += "\nGO TEST TIMEOUT"
     res = {}
-    for line in out.splitlines():
-        if line.startswith("VREPLAY "):
-            _, entry, js = line.split(" ", 2)
-            res.setdefault(entry, []).append(json.loads(js))
+
+    def parse(text):
+        for line in text.splitlines():
+            if line.startswith("VREPLAY "):
+                _, entry, js = line.split(" ", 2)
+                try:
+                    res.setdefault(entry, []).append(json.loads(js))
+                except ValueError:
+                    pass
+
+    def crashed(text):
+        for line in text.splitlines():
+            if line.startswith("panic: ") or line.startswith("fatal error: "):
+                return line
+        return None
+
+    parse(out)
+    if crashed(out):
+        # a panic in a goroutine other than the harness's own (or a runtime fatal error) kills the
+        # test process: the requests that produced no result are re-run one per process, and a
+        # crash of that process is the reproduced panic of that request
+        have = {g.get("req") for lst in res.values() for g in lst}
+        for ri, rq in enumerate(requests):
+            if ri in have:
+                continue
+            env1 = dict(env, VERIF_REPLAY_ONLY=str(ri))
+            try:
+                r1 = subprocess.run(cmd, cwd=REPO, capture_output=True, text=True, env=env1, timeout=timeout + 60)
+                o1 = r1.stdout + r1.stderr
+            except subprocess.TimeoutExpired:
+                o1 = "GO TEST TIMEOUT"
+            before = len([g for lst in res.values() for g in lst if g.get("req") == ri])
+            parse(o1)
+            after = len([g for lst in res.values() for g in lst if g.get("req") == ri])
+            c = crashed(o1)
+            if c and after == before:
+                res.setdefault(rq["entry"], []).append(dict(req=ri, index=0, fails=[], obs=[], panic="process crashed: " + c,
+                                                            assume_fail=False, timeout=False, miss=[]))
+            out += "\n--- single replay of request %d ---\n" % ri + o1[-4000:]
     return res, out, dict(overlay=ofile, requests=rfile)
 
 
